@@ -26,6 +26,30 @@ def source_changed(pid):
         return []
 
 
+def run_adapter(mod, ctx):
+    """runs the property's adapter. An exception that escapes it is an infrastructure failure (exit 2) unless it was raised
+    *inside the implementation* (a frame under /repo/): the harness only calls the library on inputs of the property's domain
+    and catches the exceptions the property allows, so an exception it did not expect, coming out of the library, means the
+    library failed on such an input — reported as a violation with the call chain as its replay, not as a crash of the check."""
+    try:
+        return mod.run(ctx)
+    except core.Infra:
+        raise
+    except Exception as ex:
+        import traceback as _tb
+        frames = _tb.extract_tb(ex.__traceback__)
+        if not any(os.path.realpath(f.filename).startswith("/repo/") for f in frames):
+            raise
+        res = core.Result()
+        chain = ["%s:%d %s" % (os.path.relpath(f.filename, "/"), f.lineno, f.name) for f in frames][-8:]
+        res.rule = "(the adapter was interrupted by an exception raised inside the implementation)"
+        res.case({"unexpected_exception": type(ex).__name__})
+        res.violation({"unexpected_exception": type(ex).__name__, "message": str(ex)[:300], "call_chain": chain,
+                       "seed": ctx.seed, "tier": ctx.tier, "widened": ctx.widen},
+                      "the implementation raised %s on an input of the property's domain where the check expected it to work" % type(ex).__name__)
+        return res
+
+
 class Ctx:
     boost = 1
 
@@ -131,7 +155,7 @@ def main():
             cov.start()
         except Exception:
             cov = None
-    res = mod.run(ctx)
+    res = run_adapter(mod, ctx)
     if cov is not None:
         try:
             cov.stop()
@@ -178,7 +202,7 @@ def main():
         # a proof obligation or the correspondence no longer checks: search harder for a failing input
         wctx = Ctx(pid, tier, seed, widen=True)
         wctx.hints = [t["case"] for t in ties[:20]]
-        wres = mod.run(wctx)
+        wres = run_adapter(mod, wctx)
         wv = unlisted(wres.violations)
         res.evaluations += wres.evaluations; res.nontrivial |= wres.nontrivial
         if wv:
